@@ -223,6 +223,18 @@ Theorem C10_reuse_untruncated_output_refuted :
 Proof. exact ex_reuse_stale_without_split. Qed.
 Print Assumptions C10_reuse_untruncated_output_refuted.
 
+(* OUTSIDE THE MODEL: the command-line front end.  apps/garbled -gmw (gmwMode:
+   per round create/join the network, Connect, loadCircuit with the input
+   sizes the parties just exchanged, Run, Close; -loop repeats this) is not
+   modelled: the theorems above are about ONE circuit handed to Network.Run.
+   That every round of a looping party uses the circuit compiled for THAT
+   round's input sizes is tied by the oracle-only family harness/c10cli.go:
+   the built CLI, a -loop leader, peers with []byte inputs of sizes s1, s2 <>
+   s1, s1 (plus a fixed-size program and a 3-party round); every party's
+   printed result of every round vs Circuit.Compute of the program compiled
+   for the round's sizes (keys c10:cli:gmw-loop:round<k>:wrong-result /
+   :error / :hang). *)
+
 (* STATE INVENTORY (finite obligation on the model regenerated from the source, checked by
    computation).  The struct fields and package-level variables of the Go packages this
    property is anchored in — circuit, gmw, ot — as emitted from /repo's current
